@@ -26,21 +26,29 @@ pub struct ZI {
 /// `XXX-2<+01>-1,0/0,J365/23`) a failure within 26h of a UTC year boundary
 /// gets a signature naming that footer, so that it can be listed as one
 /// specific known finding without masking anything else.
+pub fn year_spill_suffix(z: &Zone, sec: i64) -> Option<String> {
+    let p = z.rz.footer.as_ref()?;
+    let in_rule = z.rz.trans.last().map_or(true, |l| sec >= l.0 - 93600);
+    if !in_rule || p.is_tame(86400) {
+        return None;
+    }
+    let day = sec.div_euclid(86400);
+    let (y, _, _) = crate::refmodel::refcal::from_days(day);
+    let ys = crate::refmodel::refcal::jan1(y) * 86400;
+    let ye = crate::refmodel::refcal::jan1(y + 1) * 86400;
+    if sec - ys < 26 * 3600 || ye - sec <= 26 * 3600 {
+        let text = z.rz.footer_text.clone().unwrap_or_else(|| z.label.clone());
+        Some(format!("year-spill:{}", text.replace(' ', "_")))
+    } else {
+        None
+    }
+}
+
 pub fn check_instant(z: &Zone, ns: i128) -> CaseResult {
     check_instant_inner(z, ns).map_err(|mut f| {
-        if let Some(p) = &z.rz.footer {
-            let fl = ns.div_euclid(NS_PER_SEC) as i64;
-            let in_rule = z.rz.trans.last().map_or(true, |l| fl >= l.0);
-            if in_rule && !p.is_tame(86400) {
-                let day = fl.div_euclid(86400);
-                let (y, _, _) = crate::refmodel::refcal::from_days(day);
-                let ys = crate::refmodel::refcal::jan1(y) * 86400;
-                let ye = crate::refmodel::refcal::jan1(y + 1) * 86400;
-                if fl - ys < 26 * 3600 || ye - fl <= 26 * 3600 {
-                    let text = z.rz.footer_text.clone().unwrap_or_else(|| z.label.clone());
-                    f.sig = format!("{}:year-spill:{}", f.sig, text.replace(' ', "_"));
-                }
-            }
+        if let Some(sfx) = year_spill_suffix(z, ns.div_euclid(NS_PER_SEC) as i64) {
+            f.msg = format!("[clause {}] {}", f.sig, f.msg);
+            f.sig = sfx;
         }
         f
     })
